@@ -1844,7 +1844,9 @@ class UTPM(Ring, RawAlgorithmsMixIn):
         import algopy.exact_interpolation as exint
         d = y.data.shape[0]-1
         Gamma, rays = exint.generate_Gamma_and_rays(N,d)
-        tmp = numpy.dot(Gamma,y.data[d])
+        # contract the direction axis (axis 0 of y.data[d]); the result of a vector- or matrix-valued
+        # function keeps its own axes behind the multi-index axis
+        tmp = numpy.tensordot(Gamma, y.data[d], axes=(1,0))
 
         if as_full_matrix == False:
             return tmp
@@ -1853,7 +1855,7 @@ class UTPM(Ring, RawAlgorithmsMixIn):
             # the full symmetric derivative tensor of shape (N,)*d (the Hessian for d = 2):
             # entry [i_1,...,i_d] is the partial derivative w.r.t. x_{i_1},...,x_{i_d}, i.e.
             # alpha! times the Taylor coefficient of the multi-index alpha of that entry
-            retval = numpy.zeros((N,)*d, dtype=tmp.dtype)
+            retval = numpy.zeros((N,)*d + tmp.shape[1:], dtype=tmp.dtype)
             mi = exint.generate_multi_indices(N,d)
             pos = exint.convert_multi_indices_to_pos(mi)
 
